@@ -719,6 +719,12 @@ func (loader *Loader) resolveParameterRef(doc *T, component *ParameterRef, docum
 	if value.Content != nil && value.Schema != nil {
 		return errors.New("cannot contain both schema and content in a parameter")
 	}
+	for _, name := range componentNames(value.Examples) {
+		example := value.Examples[name]
+		if err := loader.resolveExampleRef(doc, example, documentPath); err != nil {
+			return err
+		}
+	}
 	for _, name := range componentNames(value.Content) {
 		contentType := value.Content[name]
 		if schema := contentType.Schema; schema != nil {
